@@ -1,5 +1,6 @@
 """Python STIX2 Memory Source/Sink"""
 
+from collections.abc import Mapping
 import io
 import itertools
 import json
@@ -30,22 +31,9 @@ def _add(store, stix_data, allow_custom=True, version=None):
             out the spec representation of the object.
 
     """
-    if isinstance(stix_data, list):
-        # STIX objects are in a list- recurse on each object
-        for stix_obj in stix_data:
-            _add(store, stix_obj, allow_custom, version)
-
-    elif stix_data["type"] == "bundle":
-        # adding a json bundle - so just grab STIX objects
-        for stix_obj in stix_data.get("objects", []):
-            _add(store, stix_obj, allow_custom, version)
-
-    else:
-        # Adding a single non-bundle object
-        if isinstance(stix_data, _STIXBase):
-            stix_obj = stix_data
-        else:
-            stix_obj = parse(stix_data, allow_custom, version=version)
+    # Parse everything first: if part of the content is refused, nothing of it
+    # must have been added.
+    for stix_obj in _parse_all(stix_data, allow_custom, version):
 
         # Map ID to a _ObjectFamily if the object is versioned, so we can track
         # multiple versions.  Otherwise, map directly to the object.  All
@@ -61,6 +49,42 @@ def _add(store, stix_data, allow_custom=True, version=None):
 
         else:
             store._data[stix_obj["id"]] = stix_obj
+
+
+def _parse_all(stix_data, allow_custom, version):
+    """
+    The objects to add for the given content, as a list.  Recursive function,
+    breaks down STIX Bundles and lists.
+    """
+    stix_objs = []
+
+    if isinstance(stix_data, list):
+        # STIX objects are in a list- recurse on each object
+        for stix_obj in stix_data:
+            stix_objs.extend(_parse_all(stix_obj, allow_custom, version))
+
+    elif isinstance(stix_data, Mapping) and "type" not in stix_data:
+        raise ValueError("Can't add content with no 'type' property: %s" % str(stix_data))
+
+    elif stix_data["type"] == "bundle":
+        # adding a json bundle - so just grab STIX objects
+        for stix_obj in stix_data.get("objects", []):
+            stix_objs.extend(_parse_all(stix_obj, allow_custom, version))
+
+    else:
+        # Adding a single non-bundle object
+        if isinstance(stix_data, _STIXBase):
+            stix_obj = stix_data
+        else:
+            stix_obj = parse(stix_data, allow_custom, version=version)
+
+        if "id" not in stix_obj:
+            # (e.g. an unregistered custom object, which is not validated)
+            raise ValueError("Can't add an object with no 'id' property: %s" % str(stix_data))
+
+        stix_objs.append(stix_obj)
+
+    return stix_objs
 
 
 class _ObjectFamily(object):
